@@ -38,7 +38,7 @@ Proof. split; vm_compute; reflexivity. Qed.
 
 (** in an accepted program the index of a variant constructor and the field list it is matched
     against belong to one declaration of the type, and two cases never share an index
-    (finding F09-2, repaired: two cases of one name were accepted) *)
+    (finding F09-3, repaired: two cases of one name were accepted) *)
 Theorem C13_case_lookup_unambiguous : forall p td cname decl,
   analyze_ok p = true -> td ∈ sp_types p -> (cname, decl) ∈ td_cases td ->
   find (fun cs => bool_decide (fst cs = cname)) (td_cases td) = Some (cname, decl)
